@@ -57,6 +57,17 @@ Proof.
   - intros H; inversion H; subst. rewrite Em. eauto.
 Qed.
 
+Lemma program_visit_tag c fuel prog ast t :
+  program_visit c fuel prog = Some (ast, t) -> tag_of ast = tag_of prog.
+Proof.
+  unfold program_visit. destruct prog as [[k lo hi| | | | | |] cs]; try discriminate.
+  destruct (map_st (block_visit c fuel) cs t_init) as [[cs' t1]|]; [|discriminate].
+  destruct (status_eqb (t_status t1) Modified).
+  - destruct k; try (intros H; inversion H; reflexivity);
+      destruct cs' as [|[[| | | | | |] body] [|interp [|? ?]]]; intros H; inversion H; reflexivity.
+  - intros H; inversion H; reflexivity.
+Qed.
+
 (** [rewrite] never returns a cancelled status as a result: it is an error with the diagnostic. *)
 Lemma rewrite_ok_status c file prog ast t :
   rewrite c file prog = OutOk ast t -> t_status t = Modified \/ t_status t = NotModified.
